@@ -426,6 +426,27 @@ var c06Directed = []c06Dir{
 	{Name: "cond-pending-arms", Src: `k ? pend : "x"`, A: cty.True, B: cty.False, Vars: map[string]cty.Value{"pend": cty.UnknownVal(cty.String)}},
 	{Name: "template-pending", Src: `"${pend}${k}"`, A: cty.StringVal("a"), B: cty.StringVal("b"), Vars: map[string]cty.Value{"pend": cty.UnknownVal(cty.String)}},
 	{Name: "for-pending-filter", Src: `[for x in [pend, "q"]: x if x != k]`, A: cty.StringVal("q"), B: cty.StringVal("z"), Vars: map[string]cty.Value{"pend": cty.UnknownVal(cty.String)}},
+	// the marked variable itself is not known yet in one of the two runs
+	{Name: "list-index-pending-marked-key", Src: `lst[k]`, A: cty.UnknownVal(cty.Number), B: cty.NumberIntVal(1), Vars: map[string]cty.Value{"lst": cty.ListVal([]cty.Value{cty.StringVal("x"), cty.StringVal("y")})}},
+	{Name: "tuple-index-pending-marked-key", Src: `tup[k]`, A: cty.UnknownVal(cty.Number), B: cty.NumberIntVal(1), Vars: map[string]cty.Value{"tup": cty.TupleVal([]cty.Value{cty.StringVal("x"), cty.True})}},
+	{Name: "map-index-pending-marked-key", Src: `mp[k]`, A: cty.UnknownVal(cty.String), B: cty.StringVal("a"), Vars: map[string]cty.Value{"mp": cty.MapVal(map[string]cty.Value{"a": cty.NumberIntVal(1), "b": cty.NumberIntVal(2)})}},
+	{Name: "list-index-pending-marked-dynamic-key", Src: `lst[k]`, A: cty.DynamicVal, B: cty.NumberIntVal(1), Vars: map[string]cty.Value{"lst": cty.ListVal([]cty.Value{cty.StringVal("x"), cty.StringVal("y")})}},
+	{Name: "call-expansion-pending", Src: `join("-", k...)`, A: cty.UnknownVal(cty.List(cty.String)), B: cty.ListVal([]cty.Value{cty.StringVal("b")})},
+	{Name: "template-for-pending-collection", Src: `"%{ for x in k }${x}%{ endfor }"`, A: cty.UnknownVal(cty.List(cty.String)), B: cty.ListVal([]cty.Value{cty.StringVal("a")})},
+	{Name: "template-for-pending-dynamic-collection", Src: `"%{ for x in k }${x}%{ endfor }"`, A: cty.DynamicVal, B: cty.ListVal([]cty.Value{cty.StringVal("a")})},
+	{Name: "template-for-pending-element", Src: `"%{ for x in [k, "z"] }${x}%{ endfor }"`, A: cty.UnknownVal(cty.String), B: cty.StringVal("q")},
+	{Name: "template-for-pending-dynamic-element", Src: `"%{ for x in [k, "z"] }${x}%{ endfor }"`, A: cty.DynamicVal, B: cty.StringVal("q")},
+	{Name: "template-if-pending", Src: `"%{ if k }a%{ else }b%{ endif }"`, A: cty.UnknownVal(cty.Bool), B: cty.False},
+	{Name: "splat-pending-list", Src: `k[*]`, A: cty.UnknownVal(cty.List(cty.String)), B: cty.ListVal([]cty.Value{cty.StringVal("a")})},
+	{Name: "for-pending-collection", Src: `[for x in k: x]`, A: cty.UnknownVal(cty.List(cty.String)), B: cty.ListVal([]cty.Value{cty.StringVal("a")})},
+	{Name: "attr-of-pending-object", Src: `k.a`, A: cty.UnknownVal(cty.Object(map[string]cty.Type{"a": cty.String})), B: cty.ObjectVal(map[string]cty.Value{"a": cty.StringVal("y")})},
+	{Name: "binary-pending-operand", Src: `k + 1`, A: cty.UnknownVal(cty.Number), B: cty.NumberIntVal(2)},
+	{Name: "unary-pending-operand", Src: `-k`, A: cty.UnknownVal(cty.Number), B: cty.NumberIntVal(2)},
+	{Name: "template-pending-part", Src: `"a${k}"`, A: cty.UnknownVal(cty.String), B: cty.StringVal("q")},
+	{Name: "call-pending-argument", Src: `upper(k)`, A: cty.UnknownVal(cty.String), B: cty.StringVal("q")},
+	{Name: "object-cons-pending-key", Src: `{(k) = 1}`, A: cty.UnknownVal(cty.String), B: cty.StringVal("q")},
+	{Name: "for-object-pending-key", Src: `{for x in [k]: x => 1}`, A: cty.UnknownVal(cty.String), B: cty.StringVal("q")},
+	{Name: "cond-pending-marked-predicate", Src: `k ? 1 : 2`, A: cty.UnknownVal(cty.Bool), B: cty.False},
 	// a marked key of another type than the collection's key type (it is converted first)
 	{Name: "list-index-marked-string-key", Src: `lst[k]`, A: cty.StringVal("0"), B: cty.StringVal("1"), Vars: map[string]cty.Value{"lst": cty.ListVal([]cty.Value{cty.StringVal("x"), cty.StringVal("y")})}},
 	{Name: "tuple-index-marked-string-key", Src: `tup[k]`, A: cty.StringVal("0"), B: cty.StringVal("1"), Vars: map[string]cty.Value{"tup": cty.TupleVal([]cty.Value{cty.StringVal("x"), cty.True})}},
